@@ -447,7 +447,7 @@ fn cargo_build(dir: &Path) -> BuildOutcome {
         .env("CARGO_NET_OFFLINE", "true")
         .env("RUSTFLAGS", "-Awarnings")
         .stdout(Stdio::piped())
-        .stderr(Stdio::null())
+        .stderr(Stdio::from(std::fs::File::create(dir.join("cargo-stderr.log")).expect("stderr log")))
         .spawn()
     {
         Ok(c) => c,
@@ -515,8 +515,16 @@ fn cargo_build(dir: &Path) -> BuildOutcome {
             unattributed.push(format!("{}: {}", code, msg));
         }
     }
+    let ok = status.map(|s| s.success()).unwrap_or(false);
+    if !ok && errors.is_empty() {
+        // keep the tail of cargo's own stderr: the failure is not a diagnostic about a generated program
+        if let Ok(t) = std::fs::read_to_string(dir.join("cargo-stderr.log")) {
+            let tail: Vec<&str> = t.lines().rev().take(12).collect();
+            unattributed.push(format!("cargo stderr tail: {}", tail.into_iter().rev().collect::<Vec<_>>().join(" | ")));
+        }
+    }
     BuildOutcome {
-        ok: status.map(|s| s.success()).unwrap_or(false),
+        ok,
         errors,
         unattributed,
         timed_out,
@@ -697,45 +705,80 @@ pub fn run(preset: Preset, thorough: bool, seed: u64, findings: &[Finding], only
     let _ = std::fs::remove_dir_all(&work);
     let crate_dir = work.join("crate");
 
-    // compile, dropping programs that do not compile, until the rest builds
-    let mut alive: Vec<usize> = (0..cases.len()).collect();
+    // compile in batches (one rustc per bin; a bin of ~100 programs needs about 1 GB), dropping programs
+    // that do not compile until the rest of the batch builds; each batch is run as soon as it is built
+    let all_ids: Vec<usize> = (0..cases.len()).collect();
+    let batch = n_bins * 96;
+    let mut alive: Vec<usize> = Vec::new();
     let mut compile_failed: BTreeMap<usize, (String, String)> = BTreeMap::new();
+    let mut results: BTreeMap<(usize, String, usize), (String, String)> = BTreeMap::new();
     let mut built = false;
-    for round in 0..8 {
-        let _ = std::fs::remove_dir_all(&crate_dir);
-        let mut bins: Vec<Vec<&ProgCase>> = vec![Vec::new(); n_bins];
-        for (k, id) in alive.iter().enumerate() {
-            bins[k % n_bins].push(&cases[*id]);
+    for chunk in all_ids.chunks(batch.max(1)) {
+        let mut chunk_alive: Vec<usize> = chunk.to_vec();
+        let mut chunk_built = false;
+        for _round in 0..8 {
+            let _ = std::fs::remove_dir_all(&crate_dir);
+            let mut bins: Vec<Vec<&ProgCase>> = vec![Vec::new(); n_bins];
+            for (k, id) in chunk_alive.iter().enumerate() {
+                bins[k % n_bins].push(&cases[*id]);
+            }
+            bins.retain(|b| !b.is_empty());
+            if bins.is_empty() {
+                break;
+            }
+            if let Err(e) = write_crate(&crate_dir, preset, &bins) {
+                rep.inconclusive(&format!("cannot write the program crate: {}", e));
+                break;
+            }
+            let t0 = Instant::now();
+            let outcome = cargo_build(&crate_dir);
+            rep.add("cargo_build_rounds", 1);
+            rep.add("cargo_build_seconds", t0.elapsed().as_secs());
+            if outcome.timed_out {
+                rep.inconclusive("cargo build watchdog fired");
+                break;
+            }
+            if outcome.ok {
+                chunk_built = true;
+                break;
+            }
+            if outcome.errors.is_empty() {
+                rep.inconclusive(&format!("cargo build failed without an error attributable to a generated program: {:?}", outcome.unattributed.iter().rev().take(1).map(|x| x.chars().take(600).collect::<String>()).collect::<Vec<_>>()));
+                break;
+            }
+            for (id, e) in outcome.errors {
+                compile_failed.insert(id, e);
+                chunk_alive.retain(|x| *x != id);
+            }
         }
-        bins.retain(|b| !b.is_empty());
-        if bins.is_empty() {
-            break;
-        }
-        if let Err(e) = write_crate(&crate_dir, preset, &bins) {
-            rep.inconclusive(&format!("cannot write the program crate: {}", e));
-            break;
-        }
-        let t0 = Instant::now();
-        let outcome = cargo_build(&crate_dir);
-        rep.add("cargo_build_rounds", 1);
-        rep.add("cargo_build_seconds", t0.elapsed().as_secs());
-        if outcome.timed_out {
-            rep.inconclusive("cargo build watchdog fired");
-            break;
-        }
-        if outcome.ok {
+        if chunk_built {
             built = true;
-            break;
+            let target = crate::report::out_dir().join("target").join("gen").join("debug");
+            for b in 0..n_bins {
+                let bin = target.join(format!("shard_{}", b));
+                if !bin.exists() {
+                    continue;
+                }
+                match Command::new(&bin).stdout(Stdio::piped()).stderr(Stdio::null()).output() {
+                    Ok(o) => {
+                        if !o.status.success() {
+                            rep.inconclusive(&format!("generated program shard ended with {:?}", o.status));
+                        }
+                        for line in String::from_utf8_lossy(&o.stdout).lines() {
+                            let parts: Vec<&str> = line.splitn(6, '\t').collect();
+                            if parts.len() == 6 && parts[0] == "RESULT" {
+                                if let (Ok(id), Ok(i)) = (parts[1].parse::<usize>(), parts[3].parse::<usize>()) {
+                                    results.insert((id, parts[2].to_string(), i), (parts[4].to_string(), parts[5].to_string()));
+                                }
+                            }
+                        }
+                    }
+                    Err(e) => rep.inconclusive(&format!("cannot run generated program: {}", e)),
+                }
+                let _ = std::fs::remove_file(&bin);
+            }
+            alive.extend(chunk_alive);
         }
-        if outcome.errors.is_empty() {
-            rep.inconclusive(&format!("cargo build failed without an error attributable to a generated program: {:?}", outcome.unattributed.iter().take(3).collect::<Vec<_>>()));
-            break;
-        }
-        for (id, e) in outcome.errors {
-            compile_failed.insert(id, e);
-            alive.retain(|x| *x != id);
-        }
-        let _ = round;
     }
 
     let mut witness_sigs: BTreeMap<String, Vec<String>> = BTreeMap::new();
@@ -761,33 +804,8 @@ pub fn run(preset: Preset, thorough: bool, seed: u64, findings: &[Finding], only
         record(&mut rep, c, &sig, format!("rustc rejects the rendered source: [{}] {}\nsource:\n{}", code, msg, c.rendered));
     }
 
-    // run
-    let mut results: BTreeMap<(usize, String, usize), (String, String)> = BTreeMap::new();
+    // judge
     if built {
-        let target = crate::report::out_dir().join("target").join("gen").join("debug");
-        for b in 0..n_bins {
-            let bin = target.join(format!("shard_{}", b));
-            if !bin.exists() {
-                continue;
-            }
-            match Command::new(&bin).stdout(Stdio::piped()).stderr(Stdio::null()).output() {
-                Ok(o) => {
-                    if !o.status.success() {
-                        rep.inconclusive(&format!("generated program shard ended with {:?}", o.status));
-                    }
-                    for line in String::from_utf8_lossy(&o.stdout).lines() {
-                        let parts: Vec<&str> = line.splitn(6, '\t').collect();
-                        if parts.len() == 6 && parts[0] == "RESULT" {
-                            if let (Ok(id), Ok(i)) = (parts[1].parse::<usize>(), parts[3].parse::<usize>()) {
-                                results.insert((id, parts[2].to_string(), i), (parts[4].to_string(), parts[5].to_string()));
-                            }
-                        }
-                    }
-                }
-                Err(e) => rep.inconclusive(&format!("cannot run generated program: {}", e)),
-            }
-            let _ = std::fs::remove_file(&bin);
-        }
         let variants: &[&str] = if preset == Preset::QuickXml { &["plain", "deny"] } else { &["plain"] };
         for id in &alive {
             let c = &cases[*id];
